@@ -20,7 +20,9 @@ type profile struct {
 	deepFirst                                                bool // prefer compacting the deepest non-empty level
 	wBatch                                                   int
 	memSize                                                  int64
-	dupVersions                                              bool // batches may write the same key@version twice
+	dupVersions                                              bool  // batches may write the same key@version twice
+	valLen                                                   int   // > 0: values of about this length (fills tables faster)
+	tableSize                                                int64 // > 0: fixed BaseTableSize
 }
 
 var keySetA = [][]byte{[]byte("a"), []byte("ab"), []byte("abc"), []byte("b"), {'b', 0}, {'b', 0xff}, []byte("c"), {0}, {0xff}, {0xff, 0xff}, []byte("ba"), []byte("a\x00b")}
@@ -29,6 +31,9 @@ func (c *Ctx) pickKey(p *profile) []byte { return p.keys[c.Rng.Intn(len(p.keys))
 
 func (c *Ctx) value(p *profile) []byte {
 	n := c.Rng.Intn(6)
+	if p.valLen > 0 {
+		n = p.valLen + c.Rng.Intn(4)
+	}
 	if p.bigValues && c.Rng.Intn(3) == 0 {
 		n = 30 + c.Rng.Intn(20) // around the value threshold (32): inline or value log
 	}
@@ -44,6 +49,9 @@ func runHistory(c *Ctx, p *profile) (*hist, error) {
 	o := sysOpts{Managed: p.managed, Detect: p.detect, NKeep: p.nkeeps[c.Rng.Intn(len(p.nkeeps))], MaxLevels: 4,
 		VThreshold: 32, TableSize: int64(256) << uint(c.Rng.Intn(5)), BaseLevelSize: []int64{200, 600, 2 << 10, 8 << 10}[c.Rng.Intn(4)]}
 	o.MemSize = p.memSize
+	if p.tableSize > 0 {
+		o.TableSize = p.tableSize
+	}
 	h, err := newHist(c, o)
 	if err != nil {
 		return nil, err
